@@ -13,8 +13,9 @@ NULL-padded one for OUTER JOIN when allowed), `joinedMapping` (`create_joined_co
 Specification (`Spec/Join.lean`): the nested loop `specJoin` — no index, no hashing.
 Bucket equality is related to value equality through C16 (`hashRepr_eq_of_beq`: equal values feed equal hash
 streams, for every value incl. ±0.0 and NaN after the REAL repair), so no hash-consistency hypothesis is left.
-A missing joined *file* is a runtime fact (`File::open`): see `missing_file_is_error` for the model's reading of
-it; it is otherwise covered by the correspondence and the oracle of `harness/src/c05.rs` only.
+A missing joined *file* is a runtime fact (`File::open`); the executed model has the branch (`loadJoinFileI … none`,
+Model/ExecI.lean) and `missing_file_is_error` states it; that the real `File::open` behaves so is covered by the
+correspondence and the oracle of `harness/src/c05.rs`.
 Only this file states property theorems; helper lemmas live in `Lemmas/Join*.lean`.
 -/
 namespace Sqlgrep.Props.C05
@@ -244,6 +245,20 @@ theorem missing_column_is_error (O : Oracles) (qy : Query) (j : JoinInfo) (joine
   · simp [h, failWith]
   · cases h' : indexOf? qy.table.columns j.joinerColumn <;> simp [h, failWith]
 
+/-- **a missing joined file is an error**, never an empty result: when the joined file cannot be opened (and both
+join columns exist — otherwise `ColumnNotFound` comes first, `missing_column_is_error`) the run of
+`FileExecutor::execute` (`runBatchI`, the joined file being `none`) ends with `FailOpenFile`, nothing printed, no
+line consumed — for every statement, every input, every interrupt point -/
+theorem missing_file_is_error (O : Oracles) (qy : Query) (j : JoinInfo) (files : List (List FileLine))
+    (clearAt stopAt : Option Nat) (hj : qy.join = some j)
+    (h1 : (indexOf? qy.table.columns j.joinerColumn).isSome = true)
+    (h2 : (indexOf? j.joined.columns j.joinedColumn).isSome = true) :
+    (runBatchI O qy none files clearAt stopAt).1 = { error := some .failOpenFile } := by
+  obtain ⟨ki, hki⟩ := Option.isSome_iff_exists.1 h1
+  obtain ⟨kj, hkj⟩ := Option.isSome_iff_exists.1 h2
+  cases clearAt <;>
+    simp [runBatchI, hj, setupJoin, loadJoinFileI, hki, hkj, Outcome.bind, runWithIndex, failWith]
+
 /-! ### non-vacuity -/
 
 def exT : TableInfo := { name := "t", columns := ["k", "v", "w"] }
@@ -255,6 +270,9 @@ def exJoined : List Line :=
 
 example : NamesOk exT exJ := by decide
 example : SelfOk exT := by decide
+-- hypotheses of `missing_file_is_error` on the example query, and its conclusion evaluated
+example : (indexOf? exQ.table.columns exJ.joinerColumn).isSome = true ∧ (indexOf? exJ.joined.columns exJ.joinedColumn).isSome = true := by decide
+example : (runBatchI default exQ none [[⟨true, ⟨[], [.text [97], .int 7, .null]⟩⟩]] none none).1.error = some .failOpenFile := by decide
 example : (indexOf? exQ.table.columns exJ.joinerColumn).isSome = true := by decide
 example : ∃ idx, loadJoin exJ exJoined = .ok idx := ⟨_, rfl⟩
 -- duplicates on the joined side, a NULL key and a non-admitted line: two partners, in file order
